@@ -1153,3 +1153,14 @@ fn get_peers_in_range(peers: &[PeerId], address: &NetworkAddress, range: U256) -
         })
         .collect()
 }
+
+/// Verification hook (feature `verif-hooks`): pass-through to the private range filter.
+#[cfg(feature = "verif-hooks")]
+#[allow(missing_docs)]
+pub fn verif_get_peers_in_range(
+    peers: &[PeerId],
+    address: &NetworkAddress,
+    range: U256,
+) -> Vec<PeerId> {
+    get_peers_in_range(peers, address, range)
+}
